@@ -16,7 +16,7 @@ from .. import pyops
 from ..ctx import Unsupported
 from ..engine import Interp, PyRaise
 from ..pyops import PyExc
-from ..values import (BoundMethod, Builtin, ClassVal, EnumVal, FuncVal, Ignored, ModuleVal, PDict, PList, PSet,
+from ..values import (SXReal, BoundMethod, Builtin, ClassVal, EnumVal, FuncVal, Ignored, ModuleVal, PDict, PList, PSet,
                       SBool, SBytes, SExc, SFloat, SInt, SMapZ, SObj, SOpaque, SOpt, SRef, SSeq, SSetZ, SStr,
                       Sym, TheoryObj, is_concrete, to_z3, wrap)
 
@@ -208,6 +208,8 @@ def int_of_str(I, s):
         raise PyExc("ValueError", "invalid literal for int()")
     if I.ctx.decide(z3.InRe(s, z3.Plus(ASCII_DIGIT)), "int-ascii"):
         return SInt(z3.StrToInt(s))
+    if I.ctx.decide(z3.InRe(s, z3.Concat(z3.Re("-"), z3.Plus(ASCII_DIGIT))), "int-ascii-neg"):
+        return SInt(-z3.StrToInt(z3.SubString(s, 1, z3.Length(s) - 1)))
     r = I.ctx.fresh_int("intval")
     return SInt(r)
 
@@ -258,12 +260,14 @@ def b_bytes(I, args, kw):
     raise Unsupported(f"bytes({type(v).__name__})")
 
 
+OPAQUE_BASES = {"datetime.datetime": ("datetime.date",)}
+
 _TYPE_TESTS = {
     "str": lambda v: isinstance(v, (str, SStr)),
     "bytes": lambda v: isinstance(v, (bytes, SBytes)),
     "bool": lambda v: isinstance(v, (bool, SBool)),
     "int": lambda v: isinstance(v, (bool, int, SInt, SBool)),
-    "float": lambda v: isinstance(v, (float, SFloat)),
+    "float": lambda v: isinstance(v, (float, SFloat, SXReal)),
     "dict": lambda v: isinstance(v, (PDict, SMapZ)),
     "list": lambda v: isinstance(v, (PList, SSeq)),
     "tuple": lambda v: isinstance(v, tuple),
@@ -307,7 +311,7 @@ def py_isinstance(I, v, t) -> bool:
     if isinstance(t, ModuleVal):
         # external classes (datetime, date, pd.DataFrame, pa.Table ...)
         if isinstance(v, SOpaque):
-            return v.sort == t.name or t.name.endswith("." + v.sort)
+            return v.sort == t.name or t.name.endswith("." + v.sort) or t.name in OPAQUE_BASES.get(v.sort, ())
         if isinstance(v, TheoryObj):
             return v.fields.get("__pyclass__") == t.name or t.name.endswith("." + str(v.fields.get("__pyclass__")))
         return False
@@ -438,7 +442,33 @@ def b_reversed(I, args, kw):
     return tuple(reversed(I.iter_concrete(v)))
 
 
+def _symgen_anyall(I, gen, is_any):
+    """any()/all() over a generator on a collection of unknown size (TheoryObj 'symiter').
+    Sound under-specification: the element expression is evaluated on one arbitrary element (so every exception
+    an element can cause is explored), and on each designated witness w (with membership predicate inlist(w)):
+      any: (inlist(w) and P(w)) => result        all: result => (inlist(w) => P(w))."""
+    from ..engine import _MISSING
+    it = gen.fields["iter"]
+    I.ctx.use("T-py:any/all over a collection of unknown size: result constrained only through designated witnesses")
+    if I.ctx.flip("symgen-nonempty"):
+        a = it.fields["mk"](I)
+        I.eval_gen_element(gen, a)   # may raise (TypeError ...) exactly as some element could
+    r = I.ctx.fresh_bool("any" if is_any else "all")
+    for w, inlist in it.fields.get("witnesses", []):
+        pv = I.eval_gen_element(gen, w)
+        if pv is _MISSING:
+            continue
+        t = pyops.bool_z(pyops.truth(pv))
+        if is_any:
+            I.ctx.assume(z3.Implies(z3.And(inlist, t), r))
+        else:
+            I.ctx.assume(z3.Implies(r, z3.Implies(inlist, t)))
+    return SBool(r)
+
+
 def b_any(I, args, kw):
+    if isinstance(args[0], TheoryObj) and args[0].theory == "symgen":
+        return _symgen_anyall(I, args[0], True)
     for x in I.iter_concrete(args[0]):
         if I.decide_truth(x):
             return True
@@ -446,6 +476,8 @@ def b_any(I, args, kw):
 
 
 def b_all(I, args, kw):
+    if isinstance(args[0], TheoryObj) and args[0].theory == "symgen":
+        return _symgen_anyall(I, args[0], False)
     for x in I.iter_concrete(args[0]):
         if not I.decide_truth(x):
             return False
